@@ -1,7 +1,7 @@
 #!/bin/sh
-# confirm_seed.sh <prop> <A|B> : confirm an agent-proposed mutation in its scratch worktree (/tmp/wt/<prop>),
+# confirm_seed.sh <prop> <A|B> [worktree-base] [letter-to-store-under] : confirm an agent-proposed mutation in its scratch worktree (/tmp/wt/<prop>),
 # then store it under /verif/seeded/<prop>-<X>/ with a log.  Never touches /repo.
-P=$1; X=$2; WT=/tmp/wt/$P; OUT=/verif/seeded/$P-$X
+P=$1; X=$2; WT=${3:-/tmp/wt}/$P; O=${4:-$X}; OUT=/verif/seeded/$P-$O
 cd $WT || exit 9
 git checkout -q -- . ; git checkout -q --detach main 2>/dev/null
 mkdir -p $OUT; LOG=$OUT/confirm.log; : > $LOG
